@@ -351,6 +351,10 @@ pub fn check_consts(rep: &mut Rep, c: i128, s: TimeScale, off_min: i32) {
     }
 }
 
+pub fn rand_fmt_pub(r: &mut Rng, full_datetime: bool) -> Fmt {
+    rand_fmt(r, full_datetime)
+}
+
 fn rand_fmt(r: &mut Rng, full_datetime: bool) -> Fmt {
     let mut toks: Vec<&'static str> = vec![];
     if full_datetime {
